@@ -584,6 +584,83 @@ class Hist(Scenario):
             self.resolve_conflicts()
         self.g("commit", "-q", "--allow-empty", "-m", "squashed")
 
+    def ensure_origin(self):
+        """A local bare `origin` for the main repository (server side of the CI rewrites)."""
+        origin = os.path.join(self.w.root, "origin.git")
+        if not os.path.isdir(origin):
+            self.w.git("init", "-q", "--bare", origin, plain=True, tick=False)
+            self.w.git("remote", "add", "origin", origin, plain=True, tick=False)
+        return origin
+
+    def op_ci_rewrite(self, kind=None):
+        """Server-side squash merge / rebase merge of a pushed feature branch, made by plain git (git-ai never sees it), followed by
+        the CI rewrite: `git-ai ci local merge ...` or `git-ai squash-authorship <base> <new> <old>`."""
+        rng = self.rng
+        kind = kind or rng.choice(["ci-squash", "ci-squash", "ci-rebase", "squash-authorship"])
+        base_branch = self.current_branch() or "main"
+        self.ensure_origin()
+        feat = self.new_branch_name("pr")
+        self.g("checkout", "-q", "-b", feat)
+        nfc = rng.choice([1, 2, 2, 3])
+        order = list(self.files); rng.shuffle(order)
+        for i in range(nfc):
+            for _ in range(rng.choice([1, 1, 2])):
+                self.do_edit(f=order[i % len(order)] if not self.profile.get("rebase_conflicts", True) else None)
+            self.commit_all("pr%d" % i)
+        head_sha = self.head()
+        self.g("checkout", "-q", base_branch)
+        if rng.random() < 0.6:
+            # the base moves on while the pull request is open: in a file the PR does not touch (a same-file change is finding D20's shape)
+            touched = set(self.w.ogit("diff", "--name-only", "-z", "%s...%s" % (base_branch, feat)).split("\0"))
+            cands = [x for x in self.files if x not in touched]
+            if cands and self.profile.get("rebase_upstream_same_file", True) is False:
+                f = rng.choice(cands)
+            elif self.profile.get("rebase_upstream_same_file", True):
+                f = rng.choice(self.files)
+            else:
+                f = "up%d.txt" % self.n
+                self.write(f, [self.fresh("human", hostile=False) for _ in range(2)])
+            self.do_edit(author="human", f=f, kinds=["ins", "ins", "del"])
+            self.commit_all("upstream-ci")
+        base_sha = self.head()
+        self.w.git("push", "-q", "origin", "+refs/heads/*:refs/heads/*", "+refs/notes/ai:refs/notes/ai", plain=True, tick=False)
+        # the server merges the pull request with plain git
+        if kind == "ci-rebase":
+            tmp = self.new_branch_name("srv")
+            self.w.git("checkout", "-q", "-b", tmp, feat, plain=True)
+            p = self.w.git("rebase", base_branch, plain=True)
+            if p.rc != 0 or self.in_progress():
+                self.w.git("rebase", "--abort", plain=True, tick=False)
+                self.w.git("checkout", "-q", "-f", base_branch, plain=True, tick=False)
+                self.ops.append("ci:conflict")
+                return "conflict"
+            self.w.git("checkout", "-q", base_branch, plain=True, tick=False)
+            self.w.git("merge", "-q", "--ff-only", tmp, plain=True, tick=False)
+        else:
+            p = self.w.git("merge", "--squash", feat, plain=True)
+            if self.unmerged():
+                self.w.git("reset", "-q", "--hard", plain=True, tick=False)
+                self.ops.append("ci:conflict")
+                return "conflict"
+            self.w.git("commit", "-q", "--allow-empty", "-m", "squashed on the server", plain=True)
+        merge_sha = self.head()
+        self.w.git("push", "-q", "origin", base_branch, plain=True, tick=False)
+        self.log.append(["server-merge", kind, "head=" + head_sha[:8], "merge=" + merge_sha[:8]])
+        if kind == "squash-authorship":
+            p = self.w.ga("squash-authorship", base_branch, merge_sha, head_sha)
+        else:
+            p = self.w.ga("ci", "local", "merge", "--merge-commit-sha", merge_sha, "--base-ref", base_branch, "--head-ref", feat,
+                          "--head-sha", head_sha, "--base-sha", base_sha)
+        self.w.rec.append(dict(k="ga", step=self.w.step, args=self.w._rel(p.argv[1:]), cwd=None, env=None, input=None))
+        self.log.append(["ci-rewrite", kind, "rc=%d" % p.rc, p.stdout[-200:]])
+        if b"panicked at" in p.err:
+            self.violation("panic", where="ci rewrite", stderr=p.stderr[-400:])
+        if p.rc != 0:
+            self.inconclusive = "ci rewrite exited %d: %s" % (p.rc, p.stderr[-200:])
+        self.ops.append("ci:" + kind + ":%d" % nfc)
+        self.stats["ci_rewrites"] += 1
+        return "done"
+
     def op_merge(self, kind=None):
         rng = self.rng
         kind = kind or rng.choice(["no-ff", "ff", "conflict"])
